@@ -27,6 +27,11 @@ type dataStruct struct {
 	inner int
 }
 
+type anyStruct struct {
+	Name string
+	Data any
+}
+
 type ptrStruct struct {
 	A int
 	P *int
@@ -76,6 +81,10 @@ func Universe() []UVal {
 		specU("1e300", SFloat(1e300)),
 		specU("float32(1.25)", withRep(SFloat(1.25), "float32")),
 		specU("2^53f", SFloat(1<<53)),
+		specU("float32(2^24)", withRep(SFloat(16777216), "float32")),
+		specU("2^24+1", SInt(16777217)),
+		specU("0.1", SFloat(0.1)),
+		specU("float32(0.1)", &Spec{K: "float", F: float64(float32(0.1)), R: "float32"}),
 		specU(`""`, SStr("")),
 		specU(`"abc"`, SStr("abc")),
 		specU(`"ABC"`, SStr("ABC")),
@@ -90,6 +99,8 @@ func Universe() []UVal {
 		specU(`"size"`, SStr("size")),
 		specU(`"first"`, SStr("first")),
 		specU(`"a"`, SStr("a")),
+		specU(`"now or never"`, SStr("now or never")),
+		specU(`"a, b and c"`, SStr("a, b and c")),
 		specU("4KiB", SStr(long)),
 		specU(`"unicode-ws"`, SStr("one\u00a0two\fthree\vfour\u2003five\u3000six\u0085seven\u2028eight nine")),
 		specU(`"ws-only"`, SStr(" \t\n\u00a0\u3000")),
@@ -128,6 +139,8 @@ func Universe() []UVal {
 		rawU("*struct", func() any { return &dataStruct{Title: "P", Count: 4} }),
 		rawU("(*struct)(nil)", func() any { var p *dataStruct; return p }),
 		rawU("struct{ptr,map}", func() any { i := 7; return ptrStruct{A: 1, P: &i, M: map[string]int{"a": 1}} }),
+		rawU("struct{any:map}", func() any { return anyStruct{Name: "home", Data: map[string]any{"k": []any{1}}} }),
+		rawU("struct{any:slice}", func() any { return anyStruct{Name: "home", Data: []any{1, "x"}} }),
 		rawU("[]*int", func() any { a, b := 1, 2; return []*int{&a, &b, nil} }),
 		rawU("range(5..1)", func() any { return values.NewRange(5, 1) }),
 		rawU("mapslice{nilkey}", func() any { return yaml.MapSlice{{Key: nil, Value: 1}, {Key: 2, Value: nil}} }),
